@@ -30,6 +30,10 @@ def make(spec):
         kw['cell'] = np.array([[10.5, 0, 0], [1.5, 11.25, 0], [-2.25, 0.75, 12.125]])
     elif cell == 'partly-tilted':
         kw['cell'] = np.array([[10.5, 0, 0], [0, 11.25, 0], [-2.25, 0, 12.125]])
+    elif cell == 'xy-tilt':
+        kw['cell'] = np.array([[10.5, 0, 0], [2.75, 11.25, 0], [0, 0, 12.125]])       # tilted in xy only
+    elif cell == 'yz-tilt':
+        kw['cell'] = np.array([[10.5, 0, 0], [0, 11.25, 0], [0, -1.75, 12.125]])      # tilted in yz only
     elif cell == 'strong-tilt':
         # tilt factors beyond half a box length (LAMMPS warns, the cell is what the structure says): xy = 0.7 lx, xz = -0.6 lx, yz = 0.8 ly
         kw['cell'] = np.array([[10.5, 0, 0], [7.35, 11.25, 0], [-6.3, 9.0, 12.125]])
@@ -63,6 +67,18 @@ def norm_tokens(s):
 
 
 def check(spec):
+    if spec.get('unoriented'):
+        from mofun import Atoms as _Atoms
+        i_, j_ = spec['unoriented']
+        cellm = np.array([[10.5, 0, 0], [1.5, 11.25, 0], [-2.25, 0.75, 12.125]])
+        cellm[i_, j_] = 0.8
+        try:
+            with quiet():
+                a_ = _Atoms(elements=['C', 'N'], positions=[[1., 2., 3.], [4., 5., 6.]], cell=cellm)
+                a_.save_lmpdat(io.StringIO(), atom_format=spec['style'])
+        except Exception:
+            return None
+        return "a cell with cell[%d,%d] != 0 (not in LAMMPS orientation) is written without complaint: the file cannot describe it" % (i_, j_)
     from mofun import Atoms
     style = spec['style']
     with quiet():
@@ -213,7 +229,7 @@ def run(rec, tier, seed):
                 "and compared with the structure, re-read with mofun and compared, re-written to a byte-identical fixed point; path / file-object "
                 "dispatch of Atoms.save / Atoms.load. distinct = specs")
     rnd = random.Random(seed)
-    cells = [None, 'ortho', 'tilted', 'partly-tilted', 'tiny-tilt', 'strong-tilt']
+    cells = [None, 'ortho', 'tilted', 'partly-tilted', 'tiny-tilt', 'strong-tilt', 'xy-tilt', 'yz-tilt']
     termsets = [dict(), dict(bond=1), dict(bond=2, angle=1), dict(bond=2, angle=2, dihedral=1, improper=2), dict(dihedral=2), dict(improper=1), dict(dihedral=1, improper=2)]
     ttypes = [dict(bond=1, angle=1, dihedral=1, improper=1), dict(bond=2, angle=3, dihedral=1, improper=2), dict(bond=3, angle=1, dihedral=2, improper=3)]
     k = 0
@@ -230,6 +246,14 @@ def run(rec, tier, seed):
                     rec.case(repr(sorted(spec.items(), key=str)), sample=spec if len(rec.samples) < 2 else None)
                     if msg:
                         rec.fail('lmpdat', 'lmpdat', "%s on %r" % (msg, spec), spec, 'C13/lmpdat')
+    # cells the box / tilt lines cannot describe (first vector off the x axis, second vector out of the xy plane) are refused, not written
+    for ci, (i, j) in enumerate(((0, 1), (0, 2), (1, 2))):
+        for style in ('full', 'atomic'):
+            spec = dict(unoriented=[i, j], style=style)
+            msg = check(spec)
+            rec.case(('not-lammps-oriented', i, j, style), group='orientation-refused')
+            if msg:
+                rec.fail('lmpdat', 'lmpdat', "%s on %r" % (msg, spec), spec, 'C13/lmpdat')
     # more than nine types in a section (ids 10, 11, ... sort differently as text), and coefficient tables of kinds that have no terms
     for si, style in enumerate(('full', 'atomic')):
         for coeffs in (True, 'comment', 'mixed'):
